@@ -196,3 +196,62 @@ def products_near_type_maxima(rng, fixed_n=None):
                     out.append((x, a, y, b, a + b - p))
                     break
     return out
+
+
+def check_fmtpanic(toks, resp, mode):
+    """`fmtpanic <cap> <p|-> D`: Display (`{}` or `{:+.p$}`) into a sink that panics once more than cap bytes arrive;
+    the driver catches the panic. If everything fits the byte count must be the expected one, otherwise the panic must
+    surface (P) or the error be reported. Mainly a perturbation: later calls must be unaffected."""
+    from ..oracle import fmt_expected
+    from .. import engine as E
+    cap = int(toks[1])
+    p = None if toks[2] == "-" else int(toks[2])
+    c, s = E.pD(toks[3])
+    want = fmt_expected(c, s, mode, {} if p is None else {"plus": True}, None, p)
+    n = len(want.encode())
+    if n <= cap:
+        exp = "W %d ok" % n
+        ok = resp.raw == exp
+    else:
+        exp = "P <sink exploded> (or W .. err)"
+        ok = resp.kind == "P" or (resp.kind == "W" and len(resp.f) == 2 and resp.f[1] == "err")
+    return ("ok" if ok else "viol"), "fmtpanic." + ("fits" if n <= cap else "explodes"), True, exp
+
+
+def check_serdefail(toks, resp):
+    """`serdefail <cap> D`: serde_json::to_writer into a writer that fails after cap bytes."""
+    from ..oracle import canonical_str
+    from .. import engine as E
+    cap = int(toks[1])
+    c, s = E.pD(toks[2])
+    n = len(canonical_str(c, s)) + 2
+    if resp.kind != "W" or len(resp.f) != 2:
+        return "viol", "serdefail", True, "W <n> ok|err"
+    fits = n <= cap
+    ok = (resp.f[1] == "ok" and int(resp.f[0]) == n) if fits else resp.f[1] == "err"
+    return ("ok" if ok else "viol"), "serdefail." + ("fits" if fits else "fails"), True, ("W %d ok" % n if fits else "W <= %d err" % cap)
+
+
+DEBUGF_KINDS = ("p1", "p0", "p30", "w20", "plus", "alt", "zw", "vec1", "opt2", "tup")
+
+
+def check_debugf(toks, resp):
+    """`debugf <kind> D`: Debug with format flags, alone and inside Vec / Option / tuple (which forward the flags to their
+    elements). The text inside Dec!(..) must be the canonical string whatever the flags; padding around the whole
+    `Dec!(..)` token is not fixed by the statement and is ignored."""
+    import re
+    from ..oracle import canonical_str
+    from .. import engine as E
+    kind = toks[1]
+    c, s = E.pD(toks[2])
+    tok = "Dec!(" + canonical_str(c, s) + ")"
+    got = E.unhex(resp.raw) if resp.kind.startswith("S") else None
+    exp = {"vec1": "[%s]", "opt2": "Some(%s)", "tup": "(%s, 1)"}.get(kind, "%s") % tok
+    if got is None:
+        return "viol", "debugf." + kind, s > 0, E.hexs(exp)
+    norm = re.sub(r"\s+", " ", got.strip())
+    norm = norm.replace("( ", "(").replace(" )", ")").replace("[ ", "[").replace(" ]", "]").replace(" ,", ",")
+    norm = re.sub(r",\s*(\)|\])", r"\1", norm)           # pretty-printers add a trailing comma
+    norm = norm.replace(", 1)", ", 1)")
+    ok = norm == exp or re.sub(r"\s+", "", norm) == re.sub(r"\s+", "", exp)
+    return ("ok" if ok else "viol"), "debugf." + kind, s > 0, "%s (%s)" % (E.hexs(exp), exp)
